@@ -21,7 +21,7 @@ pub const ALPHABET: &[&str] = &[
     // words / units
     "kg", "min", "ºC", "h",
     // multi-byte
-    "é", "—", "😀", "·", "\u{feff}",
+    "é", "—", "😀", "·", "\u{feff}", "\u{2212}", "\0",
     // structure
     "---", "[mode]", "steps", "ref", "text", "[duplicate]", "components",
 ];
@@ -66,8 +66,17 @@ pub fn token_strategy() -> impl Strategy<Value = String> {
         6 => proptest::sample::select(toks),
         1 => "[a-z]{1,6}".prop_map(|s| s),
         1 => (0u32..5000).prop_map(|n| n.to_string()),
+        // any character at all (proptest favours NUL, controls, exotic blanks, surrogates' neighbours, ...)
+        1 => any::<char>().prop_map(|c| c.to_string()),
+        1 => proptest::sample::select(EXOTIC_BLANKS.to_vec()).prop_map(|s| s.to_string()),
     ]
 }
+
+/// characters that are white space for Unicode but not for ASCII-only tests, and other invisible ones
+pub const EXOTIC_BLANKS: &[&str] = &[
+    "\u{a0}", "\u{3000}", "\u{2003}", "\u{2009}", "\u{85}", "\u{b}", "\u{c}", "\u{1680}", "\u{2028}", "\u{2029}", "\u{202f}", "\u{205f}",
+    "\u{200b}", "\u{feff}", "\u{ad}", "\0",
+];
 
 /// E2(b): random weighted sequences
 pub fn soup_strategy(max_len: usize) -> impl Strategy<Value = InputCase> {
@@ -113,7 +122,13 @@ pub fn lines_strategy() -> impl Strategy<Value = InputCase> {
             "@&(=1)y{}", "@a|b{}", "@c{1-2%g}", "@d{=1 kg}(n)", "bake at 180 ºC", "@./x/y{}", "time: 5", "servings: [1, 2]",
             "servings: []", "tags: []", "time: {prep: 1h, cook: 20}", "author: {name: a, url: \"https://x.y\"}", "? [a]\n: b",
             "locale: en_GB", "source: A <https://a.b/c>", "Weigh 2.1.3 g and 10.11.2024 kg", "\u{feff}Mix @a{1%kg}", "\u{feff}é @{1%kg} é", "@&a(\u{a0}sifted\u{a0})", "#&b{}(\u{3000}清潔)", "@&a{2}(\u{a0})", "== sec == trailing 2", "= a = b", ">>[-\n\n\n", "a @&x[- c\n\n\n d -]{} b", ">> servings: 0", "@a{0%kg}", ">> servings: 0\n\n@a{0%kg} @b{1%kg} @c{0-2%cup} #d{0} ~{0%min} 0 kg", "---\nservings: 0\n---\n@a{0%kg} and @b{0 tsp}", ">> servings: 0|2\n@x{0%lb}(n) @&x{0%oz}", "@b{99999999999999999999999999999999999999999999999999999999999999999999999999999999999999999999999999999999999999999999999999999999999999999999999999999999999999999999999999999999999999999999999999999999999999999999999999999999999999999999999999999999999999999999999999999999999999999999999999999999999999999999999%g}", "---\n#\ntitle: Café\ntime: 1h\nprep time: 10 min\n---", "---\n# é\n\nx: [é,\n  ö]\ncook time: 5\ntime: 2h\n---", "@water{250\u{a0}ml}", "~{=5\u{a0}min}", "@x{1\u{3000}kg}", "---- Grandma ----", "--- my notes", "[-- note --]", "[- note --] @x{}", "#frying pan|pan{}", "#&pan{}", "@../../shared/dough{}", "@./a/./b{}", "@./a//b{1%kg}", "@.\\win\\path{}", "@./trailing/{}", "Season with @ salt to taste", "Heat the # 2 burner", "~ now or ~{} later", "[- c -]>> k: v", "[- c -] >> servings: 4", "  >> k: v", "\t>> k: v", "[- a\nb -]>> k2: v", "x >> k: v", "[-]>> k: v", ">>k:v", ">> k : v : w", "Add 5 g of salt", "use 3 kg", "prep time: 10 min", "cook time: 1.5 hours",
+            ">> [mode]: [-é-]   bad", ">> [bogus]: [- ö -]  v", ">> servings: [- é -]   x", ">>  [- é -]  [mode] : steps", ">> time:  [-é-] soon  [- ü -] ",
+            ">> [define]: steps [- ñ -]  ", ">> [duplicate]:[-é-] new", "== sec == [- a -] -- b", "= sec = [- a -] [- b -]", "== sec ==[- é -][- ö -]",
+            "@\u{a0}{}", "#\u{2009}{}", "@salt|\u{3000}{}", "~\u{a0}{}", ">>\u{a0}: v", "@\u{a0}salt\u{a0}{1%kg}", "to \u{2212}5 degrees", "a\0b", "x \0 y", "\0",
+            ">> serves: 4", ">> yield: 6|12", "@x{.05%g}", "@x{.05-.1%g}", "@x{.5 g}", "[---]", "[- x --] y", "[- a - b -]",
         ]).prop_map(|s| s.to_string()),
+        // many old-style entries (the deprecation warning gets one label per entry)
+        1 => (6usize..14, proptest::bool::weighted(0.3)).prop_map(|(n, crlf)| (0..n).map(|i| format!(">> k{i}: v{i}")).collect::<Vec<_>>().join(if crlf { "\r\n" } else { "\n" })),
         1 => (proptest::sample::select(vec!["time", "prep time", "cook time", "servings", "tags", "author", "source", "locale", "title", "duration"]),
               proptest::sample::select(vec![">> ", ""]), metadata_value_strategy())
             .prop_map(|(k, pre, v)| format!("{pre}{k}: {v}")),
@@ -136,7 +151,7 @@ pub fn lines_strategy() -> impl Strategy<Value = InputCase> {
 
 /// reduced alphabet around components, for deeper exhaustive enumeration
 pub const COMPONENT_ALPHABET: &[&str] = &[
-    "@", "#", "~", "a", "é", "{", "}", "(", ")", "&", "|", "%", " ", "1", "=", "\n",
+    "@", "#", "~", "a", "é", "{", "}", "(", ")", "&", "|", "%", " ", "1", "=", "\n", "\u{a0}",
 ];
 
 pub fn exhaustive_count_in(alpha: &[&str], len: u32) -> u64 {
